@@ -203,6 +203,49 @@ func LongBody(cfg LongCfg, st *LongStats) func(c *mc.Chooser) *mc.Failure {
 						return mc.Failf(si, "after %v: Min/Max=%v/%v want %d/%d", o, t.Min(), t.Max(), ref[0], ref[len(ref)-1])
 					}
 				}
+				// InorderAfter on a tree of this shape (deep paths included): the
+				// elements >= k in order. Around the key just touched and at the ends
+				// after every step (first three elements), from every key and in
+				// full from below the minimum every 32 steps and at the end.
+				after := func(k int, full bool) *mc.Failure {
+					i := sort.SearchInts(ref, k)
+					j, stopped := i, false
+					for e := range t.InorderAfter(Elem{K: k, T: -9}) {
+						if j >= len(ref) || e.K != ref[j] || e.T != tag[e.K] {
+							return mc.Failf(si, "after %v: InorderAfter(%d) item %d is %v, reference has %v (Len=%d)", o, k, j-i, e, refAt(ref, j), len(ref))
+						}
+						j++
+						if !full && j-i >= 3 {
+							stopped = true
+							break
+						}
+					}
+					if !stopped && j != len(ref) {
+						return mc.Failf(si, "after %v: InorderAfter(%d) yields %d items, want %d (Len=%d)", o, k, j-i, len(ref)-i, len(ref))
+					}
+					return nil
+				}
+				probes := []int{o.A - 1, o.A, o.A + 1}
+				if len(ref) > 0 {
+					probes = append(probes, ref[0], ref[len(ref)/2], ref[len(ref)-1], ref[len(ref)-1]+1)
+				}
+				for _, k := range probes {
+					if f := after(k, false); f != nil {
+						return f
+					}
+				}
+				if si%32 == 31 || si == len(plan)-1 {
+					for _, k := range ref {
+						if f := after(k, false); f != nil {
+							return f
+						}
+					}
+					if len(ref) > 0 {
+						if f := after(ref[0]-1, true); f != nil {
+							return f
+						}
+					}
+				}
 			}
 			if cfg.Cursor {
 				// Tree.Cursor on a tree shaped by this history: every present key
